@@ -55,23 +55,28 @@ Theorem C08_undefined_iff r s :
   wf_canon r → s ≠ "dimensionless" →
   (get_name r s = Err (EUndefined s) ↔ r_units r !! s = None ∧ ∀ p u, ¬ reading r s p u).
 Proof. exact (undefined_iff r s). Qed.
-(** all outcomes: the exact entry; else the first candidate's prefix ++ unit; else undefined; a
-    prefixed offset / logarithmic unit is refused *)
+(** all outcomes: the exact entry; else the first candidate's prefix ++ unit — the definition
+    already stored under that name, if there is one (a written "kilometer_per_second" is what
+    "kilomps" denotes), otherwise the lazily built one; else undefined; a prefixed offset /
+    logarithmic unit is refused *)
 Theorem C08_get_name_cases r s :
   wf_canon r → s ≠ "dimensionless" →
   match get_name r s with
   | Ok n => (∃ d, r_units r !! s = Some d ∧ n = u_name d)
-            ∨ (r_units r !! s = None ∧ ∃ p u l, parse_unit_name r s = (p, u) :: l ∧ n = p ++ u)
+            ∨ (r_units r !! s = None ∧ ∃ p u l, parse_unit_name r s = (p, u) :: l ∧
+               (n = p ++ u ∨ (p ≠ "" ∧ ∃ d, r_units r !! (p ++ u) = Some d ∧ n = u_name d)))
   | Err e => r_units r !! s = None ∧
              ((e = EUndefined s ∧ parse_unit_name r s = [])
               ∨ (e = EOffset ∧ ∃ p u l ud, parse_unit_name r s = (p, u) :: l ∧ p ≠ "" ∧
+                                          r_units r !! (p ++ u) = None ∧
                                           r_units r !! u = Some ud ∧ u_multiplicative ud = false))
   end.
 Proof. exact (get_name_cases r s). Qed.
 (** the prefix factor is applied exactly once: the lazily registered definition of p+u has the
     prefix value as its scale and refers to u with exponent 1 *)
 Theorem C08_prefix_once r s p u l d :
-  r_units r !! s = None → parse_unit_name r s = (p, u) :: l → p ≠ "" → resolve r s = Ok d →
+  r_units r !! s = None → parse_unit_name r s = (p, u) :: l → p ≠ "" → r_units r !! (p ++ u) = None →
+  resolve r s = Ok d →
   ∃ pd, r_prefixes r !! p = Some pd ∧
         u_name d = p ++ u ∧ u_scale d = p_val pd ∧ u_ref d = {[ u := 1%Qc ]} ∧ u_conv d = CScale ∧
         r_units (register r s) !! (p ++ u) = Some d.
@@ -85,9 +90,23 @@ Theorem C08_registered_symbol r p u l d pd ud :
 Proof. exact (registered_symbol r p u l d pd ud). Qed.
 Theorem C08_offset_not_prefixable r s p u l pd ud :
   s ≠ "dimensionless" → r_units r !! s = None → parse_unit_name r s = (p, u) :: l → p ≠ "" →
+  r_units r !! (p ++ u) = None →
   r_prefixes r !! p = Some pd → r_units r !! u = Some ud → u_multiplicative ud = false →
   get_name r s = Err EOffset ∧ register r s = r.
 Proof. exact (offset_not_prefixable r s p u l pd ud). Qed.
+
+(** ** the two model layers
+    [Registry.resolve] (used by C01/C02/…) is the generic resolution of Model/Names.v with the
+    "a stored prefix+unit definition is never replaced" switch on, wherever the prefixed reading is
+    well formed; with the switch off (the behaviour before the repair of F46, kept for the refuted
+    witnesses) they agree when the composed name is free *)
+Theorem C08_registry_resolve_is_repaired_instance r sx s :
+  composed_ok r s → g_resolve r sx nohid true (parse_unit_name r) s = resolve r s.
+Proof. exact (g_resolve_registry r sx s). Qed.
+Theorem C08_registry_resolve_old_instance r s :
+  (∀ p u l, parse_unit_name r s = (p, u) :: l → p ≠ "" → r_units r !! (p ++ u) = None) →
+  g_resolve r false nohid false (parse_unit_name r) s = resolve r s.
+Proof. exact (g_resolve_registry_free r s). Qed.
 
 (** ** case-insensitive lookup, only when requested *)
 (** (i) with case sensitivity on, the lower-cased index is not consulted at all;
@@ -157,8 +176,8 @@ Theorem C08_history_overwrite_refuted :
 Proof. exists ["marcsecond"], "mas". vmc. Qed.
 (** under the guards — every registration of the history used a free key or replaced an entry of
     the same canonical name and kind ([no_overwrite]), the string has no doubly-prefixed reading
-    (and, if it is itself a lazily registered name, the fresh registry resolves it to itself:
-    [hi_guard]) — [get_name] answers as in the fresh registry, for every history *)
+    (and, if it is itself a lazily registered name, the fresh registry resolves it to itself; if
+    the name composed from its first reading was registered, its unit is multiplicative: [hi_guard]) — [get_name] answers as in the fresh registry, for every history *)
 Theorem C08_history_independent_guarded r hist s :
   wf_names r → no_overwrite r hist = true → hi_guard r (run_history r hist) s = true →
   get_name (run_history r hist) s = get_name r s.
